@@ -114,9 +114,10 @@ func (r *Recomposer) registerComposer(rt reflect.Type, fun RecomposeFunc) (*comp
 		for ft.Kind() == reflect.Array || ft.Kind() == reflect.Slice || ft.Kind() == reflect.Map || ft.Kind() == reflect.Ptr {
 			ft = ft.Elem()
 		}
-		// Unnamed types (anonymous structs) all share the empty name, one
-		// being registered says nothing about another.
-		if _, has := r.composers[ft.Name()]; has && 0 < len(ft.Name()) {
+		// A short name says little, types of different packages share it and
+		// unnamed types (anonymous structs) all have the empty name. Only the
+		// very type being registered already is a reason not to walk it.
+		if r.composerFor(ft) != nil {
 			continue
 		}
 		_, _ = r.registerComposer(ft, nil)
